@@ -46,8 +46,10 @@ structure PS (σ : Type) where
   defs : List (Str × Str)
 
 def lookupDef (defs : List (Str × Str)) (k : Str) : Option Str := (defs.find? (·.1 == k)).map (·.2)
-def setDef (defs : List (Str × Str)) (k v : Str) : List (Str × Str) :=
-  if defs.any (·.1 == k) then defs.map (fun p => if p.1 == k then (k, v) else p) else defs ++ [(k, v)]
+/-- `defines[k] = v` -/
+def setDef : List (Str × Str) → Str → Str → List (Str × Str)
+  | [], k, v => [(k, v)]
+  | p :: t, k, v => if p.1 == k then (k, v) :: t else p :: setDef t k v
 
 def synErr (url : Option Str) (line : Nat) (tag : String) : Fail :=
   .cfg { kind := .syntax, line := some line, url := url, tag := tag }
@@ -112,6 +114,9 @@ def keyValue {σ} (env : Env) (c : PCtx σ) (url : Option Str) (line : Nat) (res
                             url := (match e.url with | some u => if u == [] then url else some u | none => url) })
     | .error f => .error f
 
+/-- `parts[1]` if `len(parts) == 2` else `''` -/
+def defValue (more : List Str) : Str := match more with | v :: _ => v | [] => []
+
 /-- `handle_define(section, rest)` -/
 def define (env : Env) (url : Option Str) (line : Nat) (rest : Str) (defs : List (Str × Str)) :
     M (List (Str × Str)) :=
@@ -119,7 +124,7 @@ def define (env : Env) (url : Option Str) (line : Nat) (rest : Str) (defs : List
   | [] => .error (.internal "IndexError")            -- unreachable: the argument is non-empty
   | p0 :: more => do
     let defname := lower p0
-    let defvalue := match more with | v :: _ => v | [] => []
+    let defvalue := defValue more
     match lookupDef defs defname with
     | some cur =>
       let nv ← replace env defs url line defvalue
@@ -147,7 +152,7 @@ def directive (url : Option Str) (line : Nat) (rest : Str) : M Directive :=
 
 mutual
 /-- one iteration of the `while not done` loop on an already stripped line -/
-def stepLine {σ} (fuel : Nat) (env : Env) (c : PCtx σ) (url : Option Str) (line : Nat) (l : Str) (st : PS σ) : M (PS σ) :=
+def stepLine {σ} (fuel : Nat) (env : Env) (c : PCtx σ) (active : List Str) (url : Option Str) (line : Nat) (l : Str) (st : PS σ) : M (PS σ) :=
   if l.take 1 == [] || l.take 1 == ['#'] then .ok st
   else if l.take 2 == ['<', '/'] then
     if lastN l 1 != ['>'] then .error (synErr url line "malformed section end")
@@ -175,21 +180,23 @@ def stepLine {σ} (fuel : Nat) (env : Env) (c : PCtx σ) (url : Option Str) (lin
         match env.res u with
         | none => throw (.cfg { kind := .plain, url := some u, tag := "error opening" })
         | some lines =>
+          -- `_parse_resource`: a resource already being read is refused
+          if u != [] && active.contains u then throw (.cfg { kind := .plain, url := some u, tag := "resource includes itself" })
           match fuel with
           | 0 => throw (.internal "RecursionError")
           | fuel' + 1 =>
-            let sub ← parseLines fuel' env c (some u) lines 0 { ctx := st.ctx, stack := [], defs := st.defs }
+            let sub ← parseLines fuel' env c (u :: active) (some u) lines 0 { ctx := st.ctx, stack := [], defs := st.defs }
             pure { st with ctx := sub.ctx, defs := sub.defs }
   else keyValue env c url line l st
 termination_by (fuel, 0, 0)
 
 /-- the whole `parse` loop over the lines of one resource (each is stripped first) -/
-def parseLines {σ} (fuel : Nat) (env : Env) (c : PCtx σ) (url : Option Str) (lines : List Str) (lineno : Nat) (st : PS σ) : M (PS σ) :=
+def parseLines {σ} (fuel : Nat) (env : Env) (c : PCtx σ) (active : List Str) (url : Option Str) (lines : List Str) (lineno : Nat) (st : PS σ) : M (PS σ) :=
   match lines with
   | [] => if st.stack != [] then .error (synErr url lineno "unclosed sections") else .ok st
   | l :: rest => do
-    let st' ← stepLine fuel env c url (lineno + 1) (strip l) st
-    parseLines fuel env c url rest (lineno + 1) st'
+    let st' ← stepLine fuel env c active url (lineno + 1) (strip l) st
+    parseLines fuel env c active url rest (lineno + 1) st'
 termination_by (fuel, 1, lines.length)
 end
 
